@@ -31,4 +31,26 @@ CallAllowed(ev) ==
                                      ELSE Eq(ev.ret_app, ev.ret_guest)
               [] OTHER -> Eq(ev.ret_app, ev.ret_guest)     \* converted back, same value
     ELSE ev.out = "abort"                                   \* before the call (flag build: see DESIGN)
+
+(***************************************************************************)
+(* Property C12, argument/result fidelity of a callback call: the guest    *)
+(* calls the entry point with guest-ABI values ev.args[i].v; the registered *)
+(* application function runs exactly once, receives exactly those values   *)
+(* (pointers as application addresses of the same region offset, 0 as      *)
+(* null), and its result ev.ret_host arrives in the guest converted to the *)
+(* guest ABI - or the call aborts when it is not representable there.      *)
+(***************************************************************************)
+CbSeenExpected(a) == IF a.cls = "p" /\ IsZero(a.v) THEN FromInt(-1) ELSE a.v
+CbRetFits(ev) == ev.ret.cls # "i" \/ InType(ev.ret_host, ev.ret.gbits, ev.ret.gs)
+CbAllowed(ev) ==
+  /\ ~ev.trap /\ ev.count = 1                               \* exactly the registered function, once
+  /\ \A i \in 1..Len(ev.args) :
+       "seen" \in DOMAIN ev.args[i] /\ Eq(ev.args[i].seen, CbSeenExpected(ev.args[i]))
+  /\ IF CbRetFits(ev)
+       THEN /\ ev.out = "ok"
+            /\ CASE ev.ret.cls = "v" -> TRUE
+                 [] ev.ret.cls = "p" -> IF IsNeg(ev.ret_host) THEN IsZero(ev.ret_guest)
+                                        ELSE Eq(ev.ret_guest, ev.ret_host)
+                 [] OTHER -> Eq(ev.ret_guest, ev.ret_host)
+       ELSE ev.out = "abort"
 =============================================================================
